@@ -537,6 +537,64 @@ func (g *gen) lastCloses() {
 	g.w("println(\"B%d lastcloses\", ls%d, lcnt%d)", n, n, n)
 }
 
+// selectClosed: receive cases of a select on channels that have been closed
+// after some values were sent: the value received from a closed channel is
+// the zero value of the element type (and ok is false), also when the same
+// goroutine received other values through a select before.
+func (g *gen) selectClosed() {
+	n := g.n
+	et := g.elem()
+	k := g.s.Range(1, 3)
+	g.w("// block %d: select receiving from a closed channel of %s", n, et.name)
+	g.w("sc%d := make(chan %s, %d)", n, et.name, k)
+	for j := 0; j < k; j++ {
+		g.w("sc%d <- %s", n, et.conv(fmt.Sprint(3+2*j)))
+	}
+	g.w("close(sc%d)", n)
+	g.w("var scn%d chan int", n)
+	g.w("sct%d, scz%d, sck%d := 0, 0, 0", n, n, n)
+	g.w("for sck%d < %d {", n, k+2)
+	g.w("\tselect {")
+	g.w("\tcase v, ok := <-sc%d:", n)
+	g.w("\t\tsck%d++", n)
+	switch et.name {
+	case "int", "int8", "uint16", "uint64", "float64", "float32", "string", "bool", "[]int", "map[string]int", "S":
+		// the fold of the zero value is well defined for these
+		foldZero := et.fold("v")
+		if et.name == "[]int" {
+			foldZero = "len(v)"
+		}
+		g.w("\t\tif ok {")
+		g.w("\t\t\tsct%d = sct%d*7 + %s", n, n, et.fold("v"))
+		g.w("\t\t} else {")
+		g.w("\t\t\tscz%d = scz%d*7 + 1 + %s", n, n, foldZero)
+		g.w("\t\t}")
+	case "func() int":
+		// (comparing a func value with nil is wrong in Scriggo also in
+		// sequential code - `var f func(); f == nil` is false - which is
+		// outside this property: only ok is used)
+		g.w("\t\tif ok {")
+		g.w("\t\t\tsct%d = sct%d*7 + %s", n, n, et.fold("v"))
+		g.w("\t\t} else {")
+		g.w("\t\t\tscz%d += 100", n)
+		g.w("\t\t}")
+	default:
+		// pointer, interface: the zero value is nil
+		g.w("\t\tif ok {")
+		g.w("\t\t\tsct%d = sct%d*7 + %s", n, n, et.fold("v"))
+		g.w("\t\t} else if v == nil {")
+		g.w("\t\t\tscz%d += 100", n)
+		g.w("\t\t} else {")
+		g.w("\t\t\tscz%d += 1", n)
+		g.w("\t\t}")
+	}
+	g.w("\tcase w := <-scn%d:", n)
+	g.w("\t\tsct%d += w", n)
+	g.w("\t}")
+	g.w("}")
+	g.w("println(\"B%d selclosed\", sct%d, scz%d)", n, n, n)
+}
+
 // globals: goroutines started on package-level functions that read and write
 // package-level variables, from main, from a non-capturing literal and from a
 // function literal that captures variables (the goroutine's variable table
@@ -612,8 +670,28 @@ func (g *gen) nonTerminating() string {
 	g.w("blk%db := make(chan int)", n)
 	g.w("_, _ = blk%d, blk%db", n, n)
 	kind := []string{"loop", "loop-calls", "recursion", "send", "recv", "select", "select-default", "select-empty", "range", "nested-loops", "child-work",
-		"panic-deferred-loop", "panic-recovered-deferred-recv", "runtime-panic-recovered-deferred-loop", "panic-deferred-select"}[g.s.N(15)]
+		"panic-deferred-loop", "panic-recovered-deferred-recv", "runtime-panic-recovered-deferred-loop", "panic-deferred-select",
+		"drain-race", "fill-race"}[g.s.N(17)]
 	switch kind {
+	case "drain-race":
+		// several receivers (main among them) drain a buffered channel that
+		// nobody refills: every one of them ends up blocked in a receive
+		c := g.s.Range(2, 6)
+		g.w("dr%d := make(chan int, %d)", n, c)
+		g.w("for i := 0; i < %d; i++ {\n\tdr%d <- i\n}", c, n)
+		for j, k := 0, g.s.Range(1, 3); j < k; j++ {
+			g.w("go func() {\n\tfor {\n\t\t<-dr%d\n\t}\n}()", n)
+		}
+		g.w("for {\n\t<-dr%d\n}", n)
+	case "fill-race":
+		// several senders (main among them) fill a buffered channel that
+		// nobody drains
+		c := g.s.Range(1, 4)
+		g.w("fr%d := make(chan int, %d)", n, c)
+		for j, k := 0, g.s.Range(1, 3); j < k; j++ {
+			g.w("go func() {\n\tfor {\n\t\tfr%d <- 1\n\t}\n}()", n)
+		}
+		g.w("for {\n\tfr%d <- 2\n}", n)
 	case "panic-deferred-loop":
 		// a deferred function that never returns runs while the panic is in flight
 		g.w("defer func() {\n\tfor {\n\t}\n}()\npanic(\"boom\")")
@@ -708,7 +786,10 @@ func Gen(s *choice.Stream, o Options) *Prog {
 	for i := 0; i < nb; i++ {
 		g.n = i
 		var name string
-		switch s.Pick(3, 3, 2, 2, 3, 3, 2, 3, 2, 2, 2, 3) {
+		switch s.Pick(3, 3, 2, 2, 3, 3, 2, 3, 2, 2, 2, 3, 3) {
+		case 12:
+			name = "selectClosed"
+			g.selectClosed()
 		case 11:
 			name = "globals"
 			g.globals()
